@@ -273,7 +273,7 @@ bool CScript::HasValidOps() const
     while (it < end()) {
         opcodetype opcode;
         std::vector<unsigned char> item;
-        if (!GetOp(it, opcode, item) || opcode > MAX_OPCODE || item.size() > MAX_SCRIPT_ELEMENT_SIZE) {
+        if (!GetOp(it, opcode, item) || (opcode > MAX_OPCODE && opcode != OP_CHECKSIGADD) || item.size() > MAX_SCRIPT_ELEMENT_SIZE) {
             return false;
         }
     }
